@@ -82,7 +82,17 @@ pub fn refract(n: usize, bits: u32) -> BoxedStrategy<Vec<u64>> {
             (iv, nv, eta)
         },
     );
-    prop_oneof![2 => generic, 3 => boundary]
+    // (near-)normal incidence: I within 10^-j rad of +-N, where 1 - (N.I)^2 is a rounding residue of either sign
+    let eta2 = prop_oneof![3 => (0.2f64.ln()..5.0f64.ln()).prop_map(|l| l.exp()), 1 => Just(1.0f64), 1 => Just(1.5f64)];
+    let normal = (unit(n), pvec(-1.0f64..1.0, n), eta2, prop_oneof![1 => Just(-1.0f64), 4 => 2.5f64..9.0], any::<bool>()).prop_map(|(nv, r, eta, j, front)| {
+        let tv = orth(&nv, &r);
+        let th = if j < 0.0 { 0.0 } else { 10f64.powf(-j) };
+        let (sn, cs) = th.sin_cos();
+        let cs = if front { -cs } else { cs };
+        let iv: Vec<f64> = (0..nv.len()).map(|q| cs * nv[q] + sn * tv[q]).collect();
+        (iv, nv, eta)
+    });
+    prop_oneof![2 => generic, 3 => boundary, 1 => normal]
         .prop_map(move |(iv, nv, eta)| {
             let mut w = words(bits, &iv);
             w.extend(words(bits, &nv));
